@@ -33,6 +33,7 @@ EXTRA = {
             'lentil/helper.py': ['boundary_slice', 'slice_offset'], 'lentil/util.py': ['boundary'], 'lentil/field.py': ['Field.shape', 'Field.size', 'Field.__init__', 'Field.__mul__', 'insert', 'reduce', '_reduce', '_disjoint', '_merge'], 'lentil/wavefront.py': ['Wavefront.field', 'Wavefront.intensity', 'Wavefront.insert', 'Wavefront.__mul__']},
     'C08': {'lentil/plane.py': ['Image.multiply', 'TiltInterface.multiply', 'Plane.__init__', 'Plane.multiply'], 'lentil/ptype.py': ['ptype']},
     'C09': {'lentil/propagate.py': ['propagate_fft', '_fft_shape', '_fft2', 'scratch_shape', '_has_tilt'], 'lentil/util.py': ['pad']},
+    'C10': {'lentil/detector.py': ['rule07_dark_current', 'dark_current', 'read_noise', 'shot_noise'], 'lentil/wfe.py': ['power_spectrum']},
     'C11': {'lentil/zernike.py': ['zernike', 'R', 'zernike_index', 'zernike_coordinates'], 'lentil/util.py': ['centroid'], 'lentil/helper.py': ['mesh']},
     'C12': {'lentil/zernike.py': ['zernike_fit', 'zernike_remove', 'zernike_compose', 'zernike_basis']},
     'C13': {'lentil/radiometry.py': ['Spectrum.__init__', 'Spectrum.__mul__', 'Spectrum.__add__', 'Spectrum.__sub__', 'Spectrum.__truediv__', 'Spectrum.__pow__', 'Spectrum.wave', 'Spectrum.value', 'Spectrum._ufunc', '_interp_common', '_sampling', '_intersect', 'Spectrum.sample', 'Spectrum.to', 'Spectrum.copy']},
